@@ -34,7 +34,7 @@ type Step struct {
 }
 
 type ReqOp struct {
-	Kind    string // req | adv | getbyid | delete
+	Kind    string // req | adv | getbyid | delete | damaged
 	Client  int    `json:",omitempty"`
 	Present string `json:",omitempty"` // own | none | forged | stale | other
 	Pick    int    `json:",omitempty"` // index into the stale list / other client
@@ -232,6 +232,36 @@ func check(c Case) vk.Verdict {
 		switch op.Kind {
 		case "adv":
 			vk.Advance(uint32(op.Dt))
+			continue
+		case "damaged":
+			// The storage holds a record that cannot be decoded to the end (bytes in front of a copy of somebody's record),
+			// under a key of its own, and a request presents that key. Whatever that request gets - an error, a fresh
+			// session - is its own affair; nothing of it may surface in anybody else's session afterwards.
+			id := cred[op.Client]
+			if st == nil || id == "" || live(id) == nil {
+				continue
+			}
+			raw, _ := st.Get(id)
+			if len(raw) == 0 {
+				continue
+			}
+			key := fmt.Sprintf("dmg-%d", i)
+			_ = st.Set(key, append([]byte{0x01, 0x00}, raw...), 0)
+			script, doSave = nil, false
+			func() {
+				defer func() { _ = recover() }() // (the session middleware panics on a record it cannot decode)
+				switch c.Source {
+				case "cookie":
+					vk.Do(app, "GET", "/", "Cookie", sessName+"="+key)
+				case "header":
+					vk.Do(app, "GET", "/", sessName, key)
+				default:
+					vk.Do(app, "GET", "/?"+sessName+"="+key)
+				}
+			}()
+			handlerErr = ""
+			_ = st.Delete(key)
+			v.Classes = append(v.Classes, "damaged-record-presented")
 			continue
 		case "getbyid", "delete":
 			id := cred[op.Client]
@@ -511,6 +541,8 @@ func genCase(t *rapid.T) Case {
 		case k == 2:
 			c.Ops = append(c.Ops, ReqOp{Kind: "getbyid", Client: rapid.IntRange(0, 2).Draw(t, "client"), Present: rapid.SampledFrom([]string{"own", "own", "stale", "forged"}).Draw(t, "which"), Pick: rapid.IntRange(0, 5).Draw(t, "pick"),
 				Save: rapid.IntRange(0, 2).Draw(t, "gsave") == 0})
+		case k == 3 && rapid.Bool().Draw(t, "dmg"):
+			c.Ops = append(c.Ops, ReqOp{Kind: "damaged", Client: rapid.IntRange(0, 2).Draw(t, "client")})
 		case k == 3:
 			c.Ops = append(c.Ops, ReqOp{Kind: "delete", Client: rapid.IntRange(0, 2).Draw(t, "client"), Present: "own"})
 		default:
